@@ -809,6 +809,7 @@ func (c *wsConn) handleWsConn(ctx context.Context) {
 	defer c.stopPings()
 
 	var timeoutTimer *time.Timer
+	var timeoutGen uint64 // connection the idle timer was last armed for
 	if c.timeout != 0 {
 		timeoutTimer = time.NewTimer(c.timeout)
 		defer timeoutTimer.Stop()
@@ -829,6 +830,7 @@ func (c *wsConn) handleWsConn(ctx context.Context) {
 				}
 			}
 			timeoutTimer.Reset(c.timeout)
+			timeoutGen = atomic.LoadUint64(&c.connGen)
 
 			timeoutCh = timeoutTimer.C
 		}
@@ -925,6 +927,12 @@ func (c *wsConn) handleWsConn(ctx context.Context) {
 			}
 
 			c.writeLk.Lock()
+			if atomic.LoadUint64(&c.connGen) != timeoutGen {
+				// armed before the last reconnect: the connection installed since
+				// then has not been idle for a whole timeout yet
+				c.writeLk.Unlock()
+				continue
+			}
 			if err := c.conn.Close(); err != nil {
 				log.Warnw("timed-out websocket close error", "error", err)
 			}
